@@ -433,11 +433,13 @@ class Slicer:
     def _default_slice_fn(*args):
       if not within_values:
         return (args,)
-      return (
-          arg
+      # One slice per row: the (crossed) feature values, when every feature
+      # value is within its restricted values.
+      within = all(
+          arg in within_value
           for arg, within_value in zip(args, within_values, strict=True)
-          if arg in within_value
       )
+      return (args,) if within else ()
 
     slice_fn = slice_fn or _default_slice_fn
 
